@@ -74,6 +74,8 @@ let run_case (fuel : nat) (c : Sexp.t) : (string * Sexp.t * Sexp.t option) optio
   | L [A "parse-rule"; A s; table] ->
     let (sg, cx) = table_of table in
     model_only (sexp_of_pres sexp_of_rule (parse_rule sg cx fuel (str_of_atom s)))
+  | L [A "show-term"; t] ->
+    model_only (L [A "ok"; sexp_of_str (show_term (term_of t))])
   | L [A "show-goal"; g] ->
     model_only (sexp_of_res sexp_of_str (show_goal (goal_of g)))
   | L [A "show-rule"; r] ->
